@@ -18,11 +18,17 @@ impl<A> Addr<A> {
     /// (`reply_sane`: uninterpreted; the only thing it is ever assumed to say is A-INDEXSANE below)
     #[verifier::external_body]
     pub async fn send<M: Message>(&self, msg: M) -> (r: Result<M::Result, MailboxError>)
-        ensures r is Ok ==> reply_sane(r.unwrap())
+        ensures r is Ok ==> reply_sane(r.unwrap()) && reply_fits(msg, r.unwrap())
     { unimplemented!() }
 }
 
 pub uninterp spec fn reply_sane<R>(r: R) -> bool;
+/// the answer belongs to the question (uninterpreted; the only thing it is ever assumed to say is A-REPLYSHAPE below)
+pub uninterp spec fn reply_fits<M: Message>(m: M, r: M::Result) -> bool;
+/// A-REPLYSHAPE: the snapshot manager answers `NewSnapshotForLoad` with `NewSnapshotForLoad(path, id)` or an error (its handler, not under contract)
+pub broadcast axiom fn axiom_reply_new_snapshot_for_load(r: anyhow::Result<RaftSnapshotResponse>)
+    requires #[trigger] reply_fits(RaftSnapshotRequest::NewSnapshotForLoad, r)
+    ensures r is Ok ==> r.unwrap() is NewSnapshotForLoad;
 /// A-INDEXSANE: the index manager never reports a snapshot that ends at the largest log index (`end_index + 1` is computed from it)
 pub broadcast axiom fn axiom_index_reply_sane(r: anyhow::Result<RaftIndexResponse>)
     requires #[trigger] reply_sane(r)
@@ -50,10 +56,13 @@ pub ghost enum ReplyVal {
     Index(Result<anyhow::Result<RaftIndexResponse>, MailboxError>),
     Log(Result<anyhow::Result<RaftLogResponse>, MailboxError>),
     Snapshot(Result<anyhow::Result<RaftSnapshotResponse>, MailboxError>),
+    Apply(Result<anyhow::Result<StateApplyResponse>, MailboxError>),
     Other,
 }
 pub broadcast axiom fn axiom_reply_val_log(r: Result<anyhow::Result<RaftLogResponse>, MailboxError>)
     ensures #[trigger] reply_val(r) == ReplyVal::Log(r);
+pub broadcast axiom fn axiom_reply_val_apply(r: Result<anyhow::Result<StateApplyResponse>, MailboxError>)
+    ensures #[trigger] reply_val(r) == ReplyVal::Apply(r);
 pub broadcast axiom fn axiom_reply_val_snapshot(r: Result<anyhow::Result<RaftSnapshotResponse>, MailboxError>)
     ensures #[trigger] reply_val(r) == ReplyVal::Snapshot(r);
 pub uninterp spec fn reply_val<R>(r: R) -> ReplyVal;
@@ -352,6 +361,12 @@ impl Default for LogRecordDto {
 pub struct SnapshotWriterResponse { pub vx_opaque: u8 }
 pub enum SnapshotWriterRequest { Record(SnapshotRecordDto), Flush }
 impl Message for SnapshotWriterRequest { type Result = anyhow::Result<SnapshotWriterResponse>; }
+/// async-raft's CurrentSnapshotData, reduced to its fields
+pub struct CurrentSnapshotData<S> { pub term: u64, pub index: u64, pub membership: MembershipConfig, pub snapshot: Box<S> }
+/// `u64::to_string`: a function of the number
+pub uninterp spec fn u64_text(v: u64) -> Seq<char>;
+#[verifier::external_body]
+pub fn vx_u64_to_string(v: u64) -> (r: String) ensures r@ == u64_text(v) { unimplemented!() }
 /// async-raft's InitialState, reduced to its fields
 pub struct InitialState { pub last_log_index: u64, pub last_log_term: u64, pub last_applied_log: u64, pub hard_state: HardState, pub membership: MembershipConfig }
 impl InitialState {
@@ -365,6 +380,10 @@ impl Default for LogIndexInfo {
 /// async-raft's HardState / MembershipConfig, reduced to their fields
 pub struct HardState { pub current_term: u64, pub voted_for: Option<u64> }
 pub struct MembershipConfig { pub members: HashSet<u64>, pub members_after_consensus: Option<HashSet<u64>> }
+impl Clone for MembershipConfig {
+    #[verifier::external_body]
+    fn clone(&self) -> (r: Self) ensures r == *self { unimplemented!() }
+}
 impl MembershipConfig {
     #[verifier::external_body]
     pub fn new_initial(id: u64) -> (r: Self) { unimplemented!() }
